@@ -124,9 +124,33 @@ Proof.
 Qed.
 End Crawl.
 
-Lemma init_inv net seeds : cinv net (dialable seeds) (crawl_init seeds).
+Lemma uniq_acc_spec l : forall acc, NoDup acc ->
+  NoDup (uniq_acc l acc) /\ forall x, In x (uniq_acc l acc) <-> In x acc \/ In x l.
 Proof.
-  unfold crawl_init, dialable. constructor; cbn.
+  induction l as [|y l IH]; intros acc Hnd; cbn [uniq_acc].
+  - split; [exact Hnd|]. intro x. cbn. tauto.
+  - destruct (cmem y acc) eqn:E.
+    + apply cmem_in in E. destruct (IH acc Hnd) as [H1 H2]. split; [exact H1|].
+      intro x. rewrite H2. cbn. split; [tauto|]. intros [H|[<-|H]]; auto.
+    + apply cmem_not_in in E.
+      destruct (IH (acc ++ [y])) as [H1 H2].
+      { apply nodup_app; [exact Hnd|repeat constructor; intros []|]. intros x Hx [<-|[]]. contradiction. }
+      split; [exact H1|]. intro x. rewrite H2, in_app_iff. cbn. tauto.
+Qed.
+Lemma uniq_nodup l : NoDup (uniq l).
+Proof. apply (uniq_acc_spec l []). constructor. Qed.
+Lemma uniq_in l x : In x (uniq l) <-> In x l.
+Proof. unfold uniq. rewrite (proj2 (uniq_acc_spec l [] (NoDup_nil _))). cbn. tauto. Qed.
+
+Lemma reachable_ext net A B p :
+  (forall x, In x A <-> In x B) -> reachable net A p -> reachable net B p.
+Proof.
+  intros H. induction 1 as [p Hp|p q _ IH Hq]; [apply reach_seed, H, Hp|eapply reach_step; eauto].
+Qed.
+
+Lemma init_inv net seeds : cinv net (uniq (dialable seeds)) (crawl_init seeds).
+Proof.
+  unfold crawl_init. constructor; cbn.
   - reflexivity.
   - exists []. rewrite app_nil_r. split; [reflexivity|]. split; [constructor|intros ? []].
   - reflexivity.
@@ -170,17 +194,17 @@ Section Main.
 Variable net : cnet.
 Variable par : nat.
 Variable seeds : list (N * bool).
-Let S0 := dialable seeds.
+Let S0 := uniq (dialable seeds).
 
 (* 6. crawl_once: whatever the schedule, when the loop ends the peers queried
    are exactly the reachable ones, one callback each with the right outcome;
    each exactly once when the dialable starting peers are pairwise different *)
 Theorem crawl_once evs s :
   crun net par evs (crawl_init seeds) = Some s -> cfinished s = true ->
-  (forall p, In p (c_disp s) <-> reachable net S0 p) /\
+  (forall p, In p (c_disp s) <-> reachable net (dialable seeds) p) /\
   Permutation (map fst (c_cb s)) (c_disp s) /\
   (forall p b, In (p, b) (c_cb s) -> b = outcome net p) /\
-  (NoDup S0 -> NoDup (c_disp s)).
+  NoDup (c_disp s).
 Proof.
   intros Hrun Hfin. apply cfinished_spec in Hfin as [Htd Hout].
   pose proof (crun_inv net par S0 evs _ _ (init_inv net seeds) Hrun) as [Hperm Hseen Hcb Hreach Hclosed Houtc].
@@ -189,35 +213,37 @@ Proof.
   { intro p. split; apply Permutation_in; [exact Hperm|symmetry; exact Hperm]. }
   split; [|split; [symmetry; exact Hcb|split; [exact Houtc|]]].
   - intro p. split.
-    + intro Hp. apply Hreach, Hds, Hp.
+    + intro Hp. apply (reachable_ext net S0); [intro x; apply uniq_in|]. apply Hreach, Hds, Hp.
     + induction 1 as [p Hp|p q Hr IH Hq].
-      * apply Hds. destruct Hseen as (extra & -> & _). apply in_or_app. left. exact Hp.
+      * apply Hds. destruct Hseen as (extra & -> & _). apply in_or_app. left. apply uniq_in. exact Hp.
       * assert (Hpc : In p (map fst (c_cb s))) by (eapply Permutation_in; [exact Hcb|exact IH]).
         apply in_map_iff in Hpc as ([p' b] & Hpe & Hin). cbn in Hpe. subst p'.
         assert (b = true).
         { rewrite (Houtc _ _ Hin). unfold outcome. destruct (net p); [contradiction|reflexivity]. }
         subst b. apply Hds. apply (Hclosed p Hin). exact Hq.
-  - intro Hnd. eapply Permutation_NoDup; [symmetry; exact Hperm|].
-    destruct Hseen as (extra & -> & Hnde & Hdis). apply nodup_app; auto.
+  - eapply Permutation_NoDup; [symmetry; exact Hperm|].
+    destruct Hseen as (extra & -> & Hnde & Hdis). apply nodup_app; auto; [apply uniq_nodup|].
     intros x Hx Hxe. apply (Hdis x Hxe Hx).
 Qed.
 
 (* termination: no schedule is longer than twice the number of peers it can
    ever see, and while the loop condition holds some step is enabled *)
 Theorem crawl_bounded (U : list N) evs s :
-  (forall p, reachable net S0 p -> In p U) ->
+  (forall p, reachable net (dialable seeds) p -> In p U) ->
   crun net par evs (crawl_init seeds) = Some s ->
-  length evs <= 2 * (length S0 + length U).
+  length evs <= 2 * length U.
 Proof.
   intros HU Hrun.
   pose proof (crun_inv net par S0 evs _ _ (init_inv net seeds) Hrun) as [Hperm Hseen Hcb Hreach _ _].
   pose proof (crun_count net par evs _ _ Hrun) as Hc. cbn in Hc.
-  assert (Hd : length (c_disp s) <= length S0 + length U).
-  { apply Permutation_length in Hperm. rewrite app_length in Hperm.
-    destruct Hseen as (extra & Hs & Hnde & _).
-    assert (length extra <= length U).
-    { apply NoDup_incl_length; [exact Hnde|]. intros x Hx. apply HU, Hreach. rewrite Hs. apply in_or_app. right. exact Hx. }
-    rewrite Hs, app_length in Hperm. lia. }
+  assert (Hd : length (c_disp s) <= length U).
+  { assert (Hsn : NoDup (c_seen s)).
+    { destruct Hseen as (extra & -> & Hnde & Hdis). apply nodup_app; auto; [apply uniq_nodup|].
+      intros x Hx Hxe. apply (Hdis x Hxe Hx). }
+    assert (length (c_seen s) <= length U).
+    { apply NoDup_incl_length; [exact Hsn|]. intros x Hx. apply HU.
+      apply (reachable_ext net S0); [intro y; apply uniq_in|]. apply Hreach, Hx. }
+    apply Permutation_length in Hperm. rewrite app_length in Hperm. lia. }
   assert (Hcbl : length (c_cb s) <= length (c_disp s)).
   { apply Permutation_length in Hcb. rewrite app_length, map_length in Hcb. lia. }
   lia.
@@ -241,10 +267,10 @@ Qed.
 
 (* the schedule used for evaluation is one of the schedules, and it ends *)
 Lemma crawl_exec_finishes (U : list N) :
-  1 <= par -> (forall p, reachable net S0 p -> In p U) ->
+  1 <= par -> (forall p, reachable net (dialable seeds) p -> In p U) ->
   forall fuel evs0 s,
     crun net par evs0 (crawl_init seeds) = Some s ->
-    2 * (length S0 + length U) < length evs0 + fuel ->
+    2 * length U < length evs0 + fuel ->
     exists evs s', crawl_exec fuel net par s = Ok s' /\ cfinished s' = true /\
                    crun net par evs (crawl_init seeds) = Some s'.
 Proof.
@@ -269,29 +295,19 @@ Proof.
 Qed.
 
 Theorem crawl_exec_terminates (U : list N) :
-  1 <= par -> (forall p, reachable net S0 p -> In p U) ->
-  exists evs s, crawl_exec (2 * (length S0 + length U) + 1) net par (crawl_init seeds) = Ok s /\
+  1 <= par -> (forall p, reachable net (dialable seeds) p -> In p U) ->
+  exists evs s, crawl_exec (2 * length U + 1) net par (crawl_init seeds) = Ok s /\
                 cfinished s = true /\ crun net par evs (crawl_init seeds) = Some s.
 Proof.
   intros Hpar HU. apply (crawl_exec_finishes U Hpar HU _ [] (crawl_init seeds)); [reflexivity|cbn; lia].
 Qed.
 End Main.
 
-(* a starting peer listed twice is queried twice and reported twice *)
-Theorem crawl_duplicate_seeds_refuted :
-  exists net par seeds evs s,
-    crun net par evs (crawl_init seeds) = Some s /\ cfinished s = true /\
-    c_disp s = [1%N; 1%N] /\ c_cb s = [(1%N, false); (1%N, false)].
-Proof.
-  exists (fun _ => []), 1, [(1%N, true); (1%N, true)], [CDispatch; CDispatch; CResult 0; CResult 0].
-  eexists. split; [vm_compute; reflexivity|]. split; [reflexivity|]. split; reflexivity.
-Qed.
-
 (* without a worker the loop blocks on its first hand-over *)
 Theorem crawl_no_worker_blocks net seeds p r :
-  dialable seeds = p :: r -> forall fuel, exists w, crawl_exec fuel net 0 (crawl_init seeds) = Blocked w.
+  uniq (dialable seeds) = p :: r -> forall fuel, exists w, crawl_exec fuel net 0 (crawl_init seeds) = Blocked w.
 Proof.
-  intros Hd fuel. unfold crawl_init. fold (dialable seeds). rewrite Hd.
+  intros Hd fuel. unfold crawl_init. rewrite Hd.
   destruct r; (destruct fuel as [|fuel]; [eexists; cbn; reflexivity|]);
     (destruct fuel as [|fuel]; eexists; cbn; reflexivity).
 Qed.
